@@ -84,6 +84,7 @@ e4db022 C20 C20.pool
 cd01177 C01 C01.unitpair
 15c4f0f C18 C18.signed
 12fba99 C11 C11.stagefail
+07eafe6 C07 C07.filterless
 LIST
 git -C /repo worktree remove --force $WT
 rm -rf /tmp/fixcheck-ev
